@@ -133,6 +133,12 @@ def execute(sc, ctx):
             t.add(tuple(rel.split("/")), Meta(size=prng.randrange(100), isexec=prng.random() < 0.3), HashInfo("md5", oid))
         t.digest()
         check("Tree.add-permuted", t.hash_info.value, t.as_bytes())
+        # the id never depends on metadata, also when the object is asked to CARRY its metadata
+        tm = Tree()
+        for key, meta, hi in t:
+            tm.add(key, meta, hi)
+        tm.digest(with_meta=True)
+        check("Tree.digest(with_meta)", tm.hash_info.value)
         # -- route: from_list(as_list()) is the identity
         t2 = Tree.from_list(t.as_list())
         t2.digest()
